@@ -55,6 +55,8 @@ const (
 	evUpd2     = "recv-update-r2"
 	evNotif    = "recv-notification"
 	evNotif1   = "recv-notification-code1" // error code 1: the value the FSM's NOTIFICATION handlers single out
+	evNotifVer = "recv-notification-version" // OPEN Message Error / Unsupported Version Number: the case RFC 4271 8.2.2 singles out
+	evNotifBad = "recv-notification-undecodable" // a NOTIFICATION the decoder rejects (unknown error code): a decode failure that is not a BGP error of the peer's message
 	evGarbage  = "recv-malformed"
 	evWFail    = "conn-write-fails" // the next writes on the current connection fail
 	evStop     = "manual-stop"
@@ -63,7 +65,7 @@ const (
 	evBUpd     = "other-session-announces"
 )
 
-var zvSessAlphabet = []string{evT15, evT1, evT4, evOpen, evOpenBad, evKA, evUpd1, evUpd2, evNotif, evNotif1, evGarbage, evWFail, evStop, evDispose, evDialFail, evBUpd}
+var zvSessAlphabet = []string{evT15, evT1, evT4, evOpen, evOpenBad, evKA, evUpd1, evUpd2, evNotif, evNotif1, evNotifVer, evNotifBad, evGarbage, evWFail, evStop, evDispose, evDialFail, evBUpd}
 
 // zvObs is what is observed after an event (everything at a quiescent point).
 type zvObs struct {
@@ -217,7 +219,7 @@ func (s *zvSess) enabled() []string {
 	connOpen := s.cA != nil && !s.cA.isClosed()
 	for _, e := range zvSessAlphabet {
 		switch e {
-		case evOpen, evOpenBad, evKA, evUpd1, evUpd2, evNotif, evNotif1, evGarbage:
+		case evOpen, evOpenBad, evKA, evUpd1, evUpd2, evNotif, evNotif1, evNotifVer, evNotifBad, evGarbage:
 			if !connOpen {
 				continue
 			}
@@ -270,6 +272,10 @@ func (s *zvSess) apply(e string) {
 		s.cA.deliver(zvwNotification(6, 4))
 	case evNotif1:
 		s.cA.deliver(zvwNotification(1, 2))
+	case evNotifVer:
+		s.cA.deliver(zvwNotification(2, 1))
+	case evNotifBad:
+		s.cA.deliver(zvwNotification(7, 0))
 	case evGarbage:
 		b := zvwKeepalive()
 		b[3] = 0 // corrupt the marker
